@@ -106,6 +106,28 @@ def subclassed(v):
     return v
 
 
+def plain(v):
+    """A deep copy with every instance of a subclass of str / int / bytes /
+    dict / list replaced by the plain value (bool, float, None and unknown
+    objects as they are): what a snapshot compares."""
+    if isinstance(v, bool) or v is None or isinstance(v, float):
+        return v
+    elif isinstance(v, str):
+        return str(v)
+    elif isinstance(v, int):
+        return int(v)
+    elif isinstance(v, (bytes, bytearray)):
+        return bytes(v)
+    elif isinstance(v, dict):
+        return {plain(k): plain(x) for k, x in v.items()}
+    elif isinstance(v, list):
+        return [plain(x) for x in v]
+    elif isinstance(v, tuple):
+        return tuple(plain(x) for x in v)
+
+    return copy.deepcopy(v)
+
+
 class _SubclassingWriter(object):
     """Forwards calls to a writer with every argument replaced by its
     subclassed() twin."""
@@ -192,6 +214,132 @@ def writer_call(w, op, sub=False):
         raise HarnessError('unknown writer op %r' % (name,))
 
 
+# --------------------------------------------------------------------------
+# Shadows: a second, unrelated object of the same class kept alive and
+# advanced alternately with the one under observation.  Whatever the shadow
+# does is its own business (its results are never judged); the observed
+# object must behave as if it were alone.
+# --------------------------------------------------------------------------
+
+def _sec(head, body):
+    return head.replace('@', str(len(body))).encode('ascii') + body
+
+
+SHADOW_FILES = [
+    # UTF-16 main encoding, nested overrides, LF headers
+    b'#diffx: encoding=utf-16, version=1.0\n' +
+    _sec('#.preamble: indent=2, length=@\n',
+         b'  ' + 'caf\u00e9\n'.encode('utf-16')[2:]) +
+    b'#.change: encoding=utf-32\n#..file: encoding=latin-1\n' +
+    _sec('#...meta: format=json, length=@\n', b'{"k": "\xe9"}\n') +
+    _sec('#...diff: length=@\n', b'x\n') +
+    b'#..file:\n' +
+    _sec('#...meta: format=json, length=@\n',
+         '{"k": 1}\n'.encode('utf-32')[4:]) +
+    b'#.change:\n#..file:\n' +
+    _sec('#...meta: format=json, length=@\n',
+         '{"z": 2}\n'.encode('utf-16')[2:]),
+    # CRLF headers, latin-1
+    b'#diffx: encoding=latin-1, version=1.0\r\n' +
+    _sec('#.meta: format=json, length=@\r\n', b'{"m": "\xfc"}\n') +
+    b'#.change:\r\n' + _sec('#..preamble: length=@\r\n', b'p\n') +
+    b'#..file:\r\n' + _sec('#...meta: format=json, length=@\r\n',
+                            b'{"a": 1}\n') +
+    _sec('#...diff: length=@, x-opt=7\r\n', b'ab\r\ncd\r\n'),
+    # rejected half way: a header that may not follow, after a file
+    b'#diffx: encoding=utf-8, version=1.0\n#.change: encoding=utf-16\n'
+    b'#..file: encoding=utf-32\n#...diff: length=2\nx\n',
+    # rejected right after a container with exactly one legal successor
+    b'#diffx: encoding=ascii, version=1.0\n#.change:\n#..file:\n#..file:\n',
+    # ends inside a content section
+    b'#diffx: encoding=utf-8, version=1.0\n#.meta: format=json, length=40\n'
+    b'{"k":',
+]
+
+SHADOW_CALLS = [
+    ('new_change', {'encoding': 'utf-16'}),
+    ('write_preamble', {'text': 'caf\u00e9\n', 'indent': 3}),
+    ('new_file', {'encoding': 'latin-1'}),
+    ('write_meta', {'metadata': {'k': '\u00e9'}}),
+    ('write_diff', {'content': b'x\n'}),
+    ('write_diff', {'content': b'again\n'}),         # rejected (order)
+    ('new_file', {}),
+    ('write_meta', {'metadata': {'k': '\u2603'}}),
+    ('new_change', {}),
+    ('write_meta', {'metadata': {'z': 1}, 'encoding': 'utf-32'}),
+    ('write_preamble', {'text': 'late\n'}),           # rejected (order)
+    ('new_file', {'encoding': 'nope-8'}),             # may be rejected
+    ('new_file', {'encoding': 'ascii'}),
+    ('write_meta', {'metadata': {'k': '\u00e9'}}),     # rejected (unencodable)
+    ('write_meta', {'metadata': {'k': 'e'}}),
+]
+
+
+class ShadowReader(object):
+    """Readers over the SHADOW_FILES, one alive at any time; step() pulls
+    one record, swallowing whatever happens."""
+
+    def __init__(self, L, k):
+        self.L = L
+        self.k = int(k)
+        self.it = None
+        self.n = 0
+
+    def step(self):
+        try:
+            if self.it is None:
+                data = SHADOW_FILES[(self.k + self.n) % len(SHADOW_FILES)]
+                self.n += 1
+                self.it = iter(self.L.DiffXReader(io.BytesIO(data)))
+
+            next(self.it)
+        except (SimCrash, SimEventCap, SimHang):
+            raise
+        except BaseException:
+            self.it = None
+
+
+class ShadowWriter(object):
+    """Writers going through SHADOW_CALLS on throw-away streams."""
+
+    def __init__(self, L, k):
+        self.L = L
+        self.i = int(k) % len(SHADOW_CALLS)
+        self.w = None
+
+    def step(self):
+        try:
+            if self.w is None:
+                self.w = self.L.DiffXWriter(
+                    io.BytesIO(), encoding=['utf-8', 'utf-16', 'latin-1'][
+                        self.i % 3])
+                return
+
+            name, kw = SHADOW_CALLS[self.i]
+            self.i += 1
+
+            if self.i >= len(SHADOW_CALLS):
+                self.i = 0
+                w, self.w = self.w, None
+            else:
+                w = self.w
+
+            kw = dict(kw)
+
+            if name == 'write_preamble':
+                w.write_preamble(kw.pop('text'), **kw)
+            elif name == 'write_meta':
+                w.write_meta(copy.deepcopy(kw.pop('metadata')), **kw)
+            elif name == 'write_diff':
+                w.write_diff(kw.pop('content'), **kw)
+            else:
+                getattr(w, name)(**kw)
+        except (SimCrash, SimEventCap, SimHang):
+            raise
+        except BaseException:
+            pass
+
+
 class WriterActor(Actor):
     kind = 'writer'
 
@@ -208,6 +356,11 @@ class WriterActor(Actor):
 
     def step(self, world):
         L = world.L
+
+        if self.handle is None and isinstance(self.spec.get('shadow'), int):
+            self.shadow = ShadowWriter(L, self.spec['shadow'])
+            self.shadow.step()
+            self.shadow.step()
 
         if self.handle is None:
             self.handle = SimWriteHandle(world, self.spec['file'], self.id)
@@ -246,6 +399,9 @@ class WriterActor(Actor):
         self._guarded(world, self.i, op['op'],
                       lambda: writer_call(self.w, op,
                                           bool(self.spec.get('subclassed'))))
+
+        if getattr(self, 'shadow', None) is not None:
+            self.shadow.step()
 
         if self.i + 1 >= len(self.ops) and not self.done:
             self._end(world)
@@ -563,6 +719,7 @@ class ReaderActor(Actor):
         self.data = None
         self.handle = None
         self.stream = None
+        self.shadow = None
 
     def step(self, world):
         L = world.L
@@ -586,10 +743,20 @@ class ReaderActor(Actor):
                 buf=self.spec.get('buf'), prefix=self.spec.get('prefix', 0),
                 extras=self.spec)
             cls = sized_reader_cls(L, self.spec.get('block_size'))
+            self.shadow = ShadowReader(L, self.spec['shadow']) \
+                if isinstance(self.spec.get('shadow'), int) else None
+
+            if self.shadow is not None:
+                self.shadow.step()
+                self.shadow.step()
+
             self.it = iter(make_reader(cls, self.stream,
                                        bool(self.spec.get('late_rewind')),
                                        world))
             return
+
+        if self.shadow is not None:
+            self.shadow.step()
 
         try:
             rec = next(self.it)
@@ -635,9 +802,30 @@ def read_all(world, data, block_size=None, stream='sim', buf=None,
     end = 'eof'
     exc = None
     mutate = (extras or {}).get('mutate')
+    shadow = ShadowReader(L, extras['shadow']) \
+        if isinstance((extras or {}).get('shadow'), int) else None
+
+    def alternately(it):
+        # the shadow is started first and advanced before every record
+        if shadow is not None:
+            shadow.step()
+            shadow.step()
+
+        it = iter(it)
+
+        while True:
+            try:
+                rec = next(it)
+            except StopIteration:
+                return
+
+            yield rec
+
+            if shadow is not None:
+                shadow.step()
 
     try:
-        for rec in make_reader(cls, st, late_rewind, world):
+        for rec in alternately(make_reader(cls, st, late_rewind, world)):
             if mutate:
                 recs.append(copy.deepcopy(rec))
                 consumer_mutates(rec, mutate)
